@@ -17,12 +17,12 @@ def gen():
     t = F.strip_comments(F.src(TOK))
     # ---- reset: the recycled vector
     b = sq(F.fn_body(t, "reset", TOK))
-    if re.search(r"match self\.top_path\.as_mut\(\) \{ Some\(p\) => p\.clear\(\), None => self\.top_path = Some\(Vec::new\(\)\),? \}", b) \
+    if re.search(r"match self\.top_path\.as_mut\(\) \{ Some\((\w+)\) => \1\.clear\(\), None => self\.top_path = Some\(Vec::new\(\)\),? \}", b) \
             or re.search(r"self\.top_path = Some\(Vec::new\(\)\);", b) and not re.search(r"\bif\b|\bmatch\b", b):
         kind = "clear_or_recreate"
     elif re.search(r"if self\.top_path\.is_none\(\) \{ self\.top_path = Some\(Vec::new\(\)\); \}", b) and "clear()" not in b.replace("self.oov.clear()", ""):
         kind = "keep_or_recreate"
-    elif re.search(r"if let Some\(p\) = self\.top_path\.as_mut\(\) \{ p\.clear\(\); \}", b) or re.search(r"self\.top_path\.as_mut\(\)\.map\(\|p\| p\.clear\(\)\);", b):
+    elif re.search(r"if let Some\((\w+)\) = self\.top_path\.as_mut\(\) \{ \1\.clear\(\); \}", b) or re.search(r"self\.top_path\.as_mut\(\)\.map\(\|(\w+)\| \1\.clear\(\)\);", b):
         kind = "clear_if_some"
     else:
         raise F.FactError("reset: treatment of top_path not recognised")
@@ -64,7 +64,7 @@ def gen():
     out.append('Definition swap_result_shape : string := "%s".\n' % sw)
     # ---- into_morpheme_list
     b = sq(F.fn_body(t, "into_morpheme_list", TOK))
-    if not re.fullmatch(r"match self\.top_path \{ None => Err\(SudachiError::EosBosDisconnect\), Some\(path\) => Ok\(MorphemeList::from_components\( ?self\.dictionary, self\.input, path, self\.subset,? ?\)\),? \}", b):
+    if not re.fullmatch(r"match self\.top_path \{ None => Err\(SudachiError::EosBosDisconnect\), Some\((\w+)\) => Ok\(MorphemeList::from_components\( ?self\.dictionary, self\.input, \1, self\.subset,? ?\)\),? \}", b):
         raise F.FactError("into_morpheme_list: body not recognised")
     out.append('Definition into_list_shape : string := "moves_top_path_and_input".\n')
     # ---- MorphemeList::collect_results = swap_result with the list's own parts
